@@ -34,6 +34,18 @@ func clientRun(args []string) error {
 	sink := &ribdrv.WriterSink{W: bw}
 	rn := &clientdrv.Runner{Sink: sink}
 	run := func(ins []clientdrv.Input) error {
+		// an acknowledgement directly followed by a delivered response: every other one is replayed with AckResult held at
+		// its gate while the receiver handles that response
+		merged := []clientdrv.Input{}
+		for i := 0; i < len(ins); i++ {
+			x := ins[i]
+			if x.A == "ack" && i+1 < len(ins) && ins[i+1].A == "deliver" && len(merged)%2 == 0 {
+				x.Straddle, x.R = true, ins[i+1].R
+				i++
+			}
+			merged = append(merged, x)
+		}
+		ins = merged
 		for i, x := range ins {
 			if err := rn.Step(x); err != nil {
 				return fmt.Errorf("step %d: %v", i, err)
